@@ -14,11 +14,17 @@ from ..build import HarnessError
 from ..corr import Case, drive
 from ..lang import N, P, Some
 from .common import generic_replay, run_families, std_case
+from .hist import overlap_violation, replay_special
 
 ASSUMPTIONS = [
     "hashable child payloads where a set member or dict key is built (otherwise TypeError, as in Python)",
     "child validators are total (return Valid/Invalid or raise the documented assertion)",
 ]
+from ..facts import effects as _effects  # noqa: E402
+_FX = _effects.obligation("C03")
+EXTRA_PROOF_FILES = [_FX[0]]
+TRUSTED_EXTRA = [_FX[1]]
+regenerate_facts = _FX[2]
 
 INT = ("Scalar", ("KInt",), None, [], [], [])
 INT_INC = ("UserV", N(0), False)
@@ -130,7 +136,81 @@ def cases(tier: str, rng: random.Random) -> List[Case]:
             x, tag = rng.choice(G.HOSTILE), "c:hostile"
         for m in ("sync", "async"):
             out.append(std_case(v, x, m, tag=tag))
+    # (d) collections that contain themselves (through Lazy): the same validator object is active
+    # at several depths of one call, and every level reports its own positions
+    out += recursive_cases(tier, rng)
     return out
+
+
+LZ = ("LazyV", N(0), True)
+STRV = ("Scalar", ("KStr",), None, [], [], [])
+REC_DEFS = {
+    "utuple": [("UTupleV", ("UnionV", [INT, LZ]), [], [], Some(("CoTupleOrList",)))],
+    "utuple-plain": [("UTupleV", ("UnionV", [INT_INC, LZ]), [("PMaxItems", 4)], [], None)],
+    "list": [("ListV", ("UnionV", [INT, LZ]), [("PMaxItems", 4)], [], None)],
+    "map": [("MapV", STRIP, ("UnionV", [INT, LZ]), [], [], None)],
+    "ntuple": [("NTupleV", [INT, ("OptionalV", ("NoneV", None), LZ)], None, Some(("CoTupleOrList",)))],
+}
+
+
+def _rec_data(kind: str, rng: random.Random, depth: int):
+    bad = lambda: rng.choice([G.S("bad"), G.NONE, G.F1])
+    leaf = lambda: bad() if rng.random() < 0.25 else G.I(rng.randrange(9))
+    if kind == "ntuple":
+        tail = G.NONE if depth <= 0 or rng.random() < 0.3 else _rec_data(kind, rng, depth - 1)
+        if rng.random() < 0.1:
+            return ("VTuple", [leaf()])
+        return (rng.choice(["VTuple", "VList"]), [leaf(), tail])
+    n = rng.choice([0, 1, 2, 3, 3, 5])
+    items = [(_rec_data(kind, rng, depth - 1) if depth > 0 and rng.random() < 0.45 else leaf()) for _ in range(n)]
+    if kind == "map":
+        return ("VDict", [P(G.S(" k%d " % i if rng.random() < 0.8 else "  "), it) for i, it in enumerate(items)])
+    if kind == "list":
+        return ("VList", items)
+    if kind == "utuple-plain":
+        return ("VTuple", items)
+    return (rng.choice(["VTuple", "VTuple", "VList"]), items)
+
+
+def recursive_cases(tier: str, rng: random.Random) -> List[Case]:
+    out = []
+    for kind, lazy in REC_DEFS.items():
+        for _ in range(40 if tier == "quick" else 1500):
+            d = rng.choice([1, 2, 2, 3])
+            x = _rec_data(kind.split("-")[0] if kind != "utuple-plain" else kind, rng, d)
+            for m in ("sync", "async"):
+                out.append(std_case(LZ, x, m, lazy=lazy, tag="d:recursive", fuel=12 * d + 30))
+    return out
+
+
+AINT = ("Scalar", ("KInt",), None, [], [], [("APred", N(2))])
+OVERLAP = [
+    (("ListV", AINT, [("PMinItems", 1)], [("APred", N(3))], None),
+     [("VList", [G.I(2), G.I(4)]), ("VList", [G.I(3), G.I(-1), G.I(2)]), ("VList", []), ("VList", [G.I(2), G.S("x")])]),
+    (("UTupleV", AINT, [], [], Some(("CoTupleOrList",))),
+     [("VTuple", [G.I(2), G.I(4)]), ("VTuple", [G.I(3), G.I(6), G.I(5)]), ("VList", [G.I(1)])]),
+    (("SetV", AINT, [], [("APred", N(0))], None), [("VSet", [G.I(2)]), ("VSet", [G.I(3), G.I(4)]), ("VSet", [G.I(5)])]),
+    (("NTupleV", [AINT, AINT], None, Some(("CoTupleOrList",))),
+     [("VList", [G.I(2), G.I(4)]), ("VTuple", [G.I(3), G.I(2)]), ("VTuple", [G.I(2), G.I(5)])]),
+    (("MapV", AINT, AINT, [("PMaxKeys", 2)], [], None),
+     [("VDict", [P(G.I(2), G.I(4))]), ("VDict", [P(G.I(1), G.I(2)), P(G.I(4), G.I(3))]), ("VDict", [])]),
+]
+
+
+def overlaps(tier: str, rng: random.Random):
+    """Each of several calls suspended inside one collection validator object gets its own positions."""
+    bad, n_sets, n_sched = [], 0, 0
+    for vt, alpha in OVERLAP:
+        for k in (2, 3):
+            for xts in itertools.product(alpha, repeat=k):
+                if k == 3 and rng.random() < (0.85 if tier == "quick" else 0.0):
+                    continue
+                n_sets += 1
+                v, c = overlap_violation("C03", vt, [], list(xts), 300 if tier == "quick" else 20000)
+                n_sched += c
+                if v and not bad:
+                    bad.append(v)
+    return bad, n_sets, n_sched
 
 
 def _call(child: Any, mode: str, x: Any) -> Any:
@@ -272,8 +352,20 @@ def nontrivial(c: Case) -> bool:
 
 
 def run(tier: str, rng: random.Random, proof_ok: bool) -> dict:
-    return run_families("C03", cases(tier, rng), rng, oracle, nontrivial)
+    rep = run_families("C03", cases(tier, rng), rng, oracle, nontrivial)
+    bad, n_sets, n_sched = overlaps(tier, rng)
+    rep["violations"] += bad
+    rep["coverage"]["overlapping_call_sets"] = n_sets
+    rep["coverage"]["schedules"] = n_sched
+    return rep
 
 
 def replay(path: str) -> int:
-    return generic_replay(path, oracle)
+    import json
+    rc = json.load(open(path)).get("replay_case")
+    r = replay_special(rc, "C03") if isinstance(rc, dict) else None
+    return r if r is not None else generic_replay(path, oracle)
+
+
+from ..facts import attach as _attach, typechecks as _typechecks  # noqa: E402
+_attach(globals(), _typechecks.obligation("C03"))
